@@ -316,6 +316,41 @@ fn ray(dir: i64, r: f64, a: f64) -> Cmplx {
     match dir { 0 => c(r, 0.0), 2 => c(0.0, r), 4 => c(-r, 0.0), 6 => c(0.0, -r),
         _ => { let th = (((dir - 1) / 2) as f64 * 90.0 + a).to_radians(); c(r * th.cos(), r * th.sin()) } }
 }
+/// the crate's OWN constants (exact bit patterns read from ohsl::constant), with their halves and doubles
+fn crate_constants() -> Vec<f64> {
+    use ohsl::constant::*;
+    let base = [PI, PI_2, PI_4, FRAC_1_PI, FRAC_2_PI, TAU, SQRTPI, SQRT2, SQRT1_2, E, EULER];
+    let mut v: Vec<f64> = Vec::new();
+    for cst in base { for f in [1.0, 0.5, 2.0] { let x = cst * f; if !v.iter().any(|y| y.to_bits() == x.to_bits()) { v.push(x); } } }
+    v
+}
+/// (dir, modulus class) of a point, as the region lattice of ComplexFun.tla classifies it; None outside 1e-3 <= |z| <= 10
+fn classify(z: Cmplx) -> Option<(i64, i64)> {
+    let r = z.real.hypot(z.imag);
+    if !(r >= 1e-3 && r <= 10.0) { return None; }
+    let dir = match (z.real == 0.0, z.imag == 0.0) {
+        (false, true) => if z.real > 0.0 { 0 } else { 4 }, (true, false) => if z.imag > 0.0 { 2 } else { 6 }, (true, true) => return None,
+        _ => match (z.real > 0.0, z.imag > 0.0) { (true, true) => 1, (false, true) => 3, (false, false) => 5, (true, false) => 7 } };
+    let m = if r < 0.05 { 0 } else if r < 1.0 - 1e-3 { 1 } else if r < 1.0 { 2 } else if r == 1.0 { 3 } else if r <= 1.0 + 1e-3 { 4 } else if r < 9.0 { 5 } else { 6 };
+    Some((dir, m))
+}
+/// evaluation points built from the crate's constants: real part, imaginary part or both equal to +-C, the other part
+/// zero, ordinary, or another constant (arguments no grid or random significand ever hits bit for bit)
+fn constant_points() -> Vec<Cmplx> {
+    let cs = crate_constants(); let mut v = Vec::new();
+    let ord = [0.5, 1.0, 3.0];
+    for (i, cst) in cs.iter().enumerate() {
+        let other = cs[(i + 1) % cs.len()];
+        for sr in [1.0, -1.0] {
+            v.push(c(sr * cst, 0.0)); v.push(c(0.0, sr * cst));
+            for si in [1.0, -1.0] {
+                for y in ord { v.push(c(sr * cst, si * y)); v.push(c(si * y, sr * cst)); }
+                v.push(c(sr * cst, si * other)); v.push(c(sr * cst, si * cst));
+            }
+        }
+    }
+    v
+}
 fn points(reg: &Value, rng: &mut StdRng, nrand: usize) -> Vec<Cmplx> {
     let kind = gets(reg, "kind"); let dir = geti(reg, "dir"); let m = geti(reg, "m"); let side = geti(reg, "side") as f64;
     let mut v = Vec::new();
@@ -324,6 +359,7 @@ fn points(reg: &Value, rng: &mut StdRng, nrand: usize) -> Vec<Cmplx> {
             let angles: Vec<f64> = if dir % 2 == 0 { vec![0.0] } else { vec![15.0, 45.0, 75.0] };
             for r in mod_reps(m) { for a in &angles { v.push(ray(dir, r, *a)); } }
             for _ in 0..nrand { let r = mod_rand(m, rng); let a = rng.gen_range(1.0..89.0); v.push(ray(dir, r, a)); }
+            for p in constant_points() { if classify(p) == Some((dir, m)) { v.push(p); } }
         }
         "side" => {
             // the axis ray displaced by side * 1e-9 perpendicular to it (counter-clockwise positive)
@@ -356,6 +392,7 @@ fn points(reg: &Value, rng: &mut StdRng, nrand: usize) -> Vec<Cmplx> {
                 // the axis ray with the other part -0.0
                 let mut rs = mod_reps(m); for _ in 0..nrand { rs.push(mod_rand(m, rng)); }
                 for r in rs { v.push(match dir { 0 => c(r, -0.0), 2 => c(-0.0, r), 4 => c(-r, -0.0), _ => c(-0.0, -r) }); }
+                for p in constant_points() { if classify(p) == Some((dir, m)) { v.push(if dir % 4 == 0 { c(p.real, -0.0) } else { c(-0.0, p.imag) }); } }
             }
         }
         other => { eprintln!("TOOL-ERROR cfun: unknown region kind {}", other); std::process::exit(2) }
@@ -408,9 +445,12 @@ pub fn exec(case: &Value, out: &mut Out) {
                 let mut ws: Vec<Cmplx> = POW_W.iter().map(|p| c(p.0, p.1)).collect(); let mut xs: Vec<f64> = POWF_X.to_vec();
                 let mut bs: Vec<Cmplx> = LOG_B.iter().map(|p| c(p.0, p.1)).collect();
                 match rkind {
-                    "pow_def" => for _ in 0..nrand { let m: f64 = rng.gen_range(0.0..3.0); let t: f64 = rng.gen_range(-PI..PI); ws.push(c(m * t.cos(), m * t.sin())); },
-                    "powf_def" => for _ in 0..nrand { xs.push(rng.gen_range(-3.0..3.0)); },
-                    "log_def" => for _ in 0..nrand { let m: f64 = 10f64.powf(rng.gen_range(-3.0..1.0)); let t: f64 = rng.gen_range(-PI..PI); bs.push(c(m * t.cos(), m * t.sin())); },
+                    "pow_def" => { for cst in crate_constants() { if cst <= 3.0 { ws.push(c(cst, 0.0)); ws.push(c(-cst, 0.0)); ws.push(c(0.0, cst)); ws.push(c(cst, -0.5)); }
+                                                                   if cst <= 2.0 { ws.push(c(cst, cst)); ws.push(c(-0.7, -cst)); } }
+                                   for _ in 0..nrand { let m: f64 = rng.gen_range(0.0..3.0); let t: f64 = rng.gen_range(-PI..PI); ws.push(c(m * t.cos(), m * t.sin())); } },
+                    "powf_def" => { for cst in crate_constants() { if cst <= 3.0 { xs.push(cst); xs.push(-cst); } } for _ in 0..nrand { xs.push(rng.gen_range(-3.0..3.0)); } },
+                    "log_def" => { for cst in crate_constants() { bs.push(c(cst, 0.0)); bs.push(c(-cst, 0.0)); bs.push(c(0.0, cst)); bs.push(c(cst, 1.0)); bs.push(c(-0.5, -cst)); bs.push(c(cst, cst)); }
+                                   for _ in 0..nrand { let m: f64 = 10f64.powf(rng.gen_range(-3.0..1.0)); let t: f64 = rng.gen_range(-PI..PI); bs.push(c(m * t.cos(), m * t.sin())); } },
                     "powf_near" => xs = near_exponents(),
                     "pow_near" => { ws = Vec::new(); for x in near_exponents() { ws.push(c(x, 0.0)); }
                                     for x in near_exponents().iter().step_by(3) { ws.push(c(*x, 1e-9)); ws.push(c(x.round() * 0.5 + *x * 0.5, -1e-9)); }
